@@ -38,7 +38,19 @@ type theoryLemma struct {
 	goal string // negated goal (SMT commands)
 }
 
+const theoryDefs2 = `(declare-fun s.cat (Str Str) Str)
+(declare-fun s.byte (Int) Str)
+(assert (forall ((a Str) (b Str)) (! (= (s.len (s.cat a b)) (+ (s.len a) (s.len b))) :pattern ((s.cat a b)))))
+(assert (forall ((a Str) (b Str) (i Int)) (! (= (s.at (s.cat a b) i) (ite (< i (s.len a)) (s.at a i) (s.at b (- i (s.len a))))) :pattern ((s.at (s.cat a b) i)))))
+(assert (forall ((c Int)) (! (and (= (s.len (s.byte c)) 1) (= (s.at (s.byte c) 0) c)) :pattern ((s.byte c)))))
+(assert (forall ((s Str) (i Int)) (! (and (<= 0 (s.at s i)) (<= (s.at s i) 255)) :pattern ((s.at s i)))))
+`
+
 var theoryLemmas = []theoryLemma{
+	{"successor-1", "k < x ==> !(x < k+[0])", theoryDefs2 + "(declare-const k Str)(declare-const x Str)(assert (s.lt k x))(assert (s.lt x (s.cat k (s.byte 0))))"},
+	{"successor-2", "!(k < x) && trichotomy(k,x) ==> x < k+[0]", theoryDefs2 + "(declare-const k Str)(declare-const x Str)(assert (not (s.lt k x)))(assert (not (s.lt x (s.cat k (s.byte 0)))))(assert (or (s.lt k x) (= k x) (s.lt x k)))"},
+	{"successor-3", "k < k+[0]", theoryDefs2 + "(declare-const k Str)(assert (not (s.lt k (s.cat k (s.byte 0)))))"},
+	{"prefix-not-less", "hasPrefix(s,p) ==> !(s < p)", "(declare-const p Str)(declare-const s Str)(assert (s.prefix p s))(assert (s.lt s p))"},
 	{"lt-irreflexive", "!(a < a)", "(declare-const a Str)(assert (s.lt a a))"},
 	{"lt-asymmetric", "a < b ==> !(b < a)", "(declare-const a Str)(declare-const b Str)(assert (s.lt a b))(assert (s.lt b a))"},
 	{"lt-transitive", "a < b && b < c ==> a < c", "(declare-const a Str)(declare-const b Str)(declare-const c Str)(assert (s.lt a b))(assert (s.lt b c))(assert (not (s.lt a c)))"},
